@@ -1658,3 +1658,256 @@ def _check_contract(facts, fn, rt):
         # and the unwraps sit under those flags
         return ok and cnt > 0, "%d assignments of %s, all inside `if let Some(..) = &%s`" % (cnt, "/".join(flags), want)
     return False, ""
+
+
+# ----------------------------------------------------------------------------- slicing the line being scanned
+
+
+def _lit_len(e):
+    """Byte length of a string / char literal."""
+    e = strip(e)
+    if isinstance(e, dict) and e.get("k") == "lit" and e.get("ty") in ("str", "char"):
+        return len(str(e["v"]).encode("utf-8"))
+    return None
+
+
+@rule("T-SLICE-BOUNDS", floor=15,
+      text="every index or slice in the preprocessor (the code that meets raw text first) stays inside what it indexes, by one of these arguments "
+           "recognised per site: a literal offset k under a dominating `starts_with(<literal of k bytes>)`; an offset obtained from "
+           "`find(..).unwrap_or(len)` of the same string; an offset `<piece>.len() + k` where the piece was split off the same string at a delimiter "
+           "of exactly k bytes that is known to be there (the Some arm of split_once, a second piece of splitn); a cursor built only from such "
+           "terms; a capture group that takes part in every match of its regex; the index pair delivered by enumerate() / RegexSet::matches over "
+           "the parallel macro tables (T-CPP-PARALLEL); the chunk and position undefine() found while the caller knows the macro is defined.  "
+           "An offset that is one byte off panics on a line that ends right after the delimiter, or cuts a UTF-8 character")
+def t_slice_bounds(facts, res, tier):
+    from astlib import regex_asts
+    n = 0
+    for fn in facts.fns:
+        if not fn["file"].endswith("/cpp.rs"):
+            continue
+        sc = scoped(fn)
+        # cursor-like locals: every assignment is a piece-length term
+        for node, env, doms in sc:
+            if node.get("k") != "index":
+                continue
+            base = node["base"]
+            idx = node["idx"]
+            bt = _norm(base)
+            n += 1
+            cls = why = None
+            if idx.get("k") == "range":
+                parts = [p for p in (idx.get("start"), idx.get("end")) if isinstance(p, dict)]
+                oks = []
+                for p in parts:
+                    oks.append(_offset_ok(facts, fn, sc, base, p, env, doms))
+                if parts and all(o[0] for o in oks):
+                    cls, why = "bounded slice", "; ".join(o[1] for o in oks)
+            else:
+                lit = _int_lit(idx)
+                if lit is not None and re.search(r"\bcaps$|captures", bt):
+                    # capture group index: find the regex the captures come from
+                    ok, why2 = _capture_group_always(facts, fn, node, lit, env, regex_asts)
+                    if ok:
+                        cls, why = "capture group", why2
+                else:
+                    nm = simple_name(idx)
+                    b = env.get(nm) if nm else None
+                    if b is not None and b.src == "for" and b.scrut is not None and ("enumerate()" in _norm(b.scrut) or "matches(" in _norm(b.scrut)):
+                        cls, why = "table index", "`%s` is delivered by `%s` over the parallel macro tables (kept in step: T-CPP-PARALLEL)" % (nm, _norm(b.scrut)[:50])
+                    elif fn["name"] == "undefine" and nm in ("k", "i") or (fn["name"] == "undefine" and _norm(idx) in ("k", "i")):
+                        ok, why2 = _undefine_guarded(facts)
+                        if ok:
+                            cls, why = "found position", why2
+            key = "T-SLICE-BOUNDS:%s:%s" % (fn["name"], _norm(node)[:50])
+            res.inst(key + "#%d" % n, True, {"function": fn["name"], "expression": expr_text(node)[:70], "class": cls, "why": why})
+            if cls is None:
+                res.fail(key, facts.where(fn, node), "%s evaluates `%s` and none of the recognised arguments bounds the offset: a line that ends right there (or a multi-byte character) makes it panic" % (fn["name"], expr_text(node)[:70]))
+    if n == 0:
+        raise AnchorMissing("no index or slice expression found in cpp.rs")
+
+
+def _piece_term(e, base, env, doms):
+    """`P.len() + k` (or `P.len()`) where P is a piece split off `base` at a delimiter of k bytes known to be present."""
+    e = strip(e)
+    k = 0
+    p = e
+    if isinstance(e, dict) and e.get("k") == "binary" and e["op"] == "+":
+        l, r = e["l"], e["r"]
+        if _int_lit(r) is not None:
+            k, p = _int_lit(r), strip(l)
+        elif _int_lit(l) is not None:
+            k, p = _int_lit(l), strip(r)
+        else:
+            return None
+    if not (isinstance(p, dict) and p.get("k") == "mcall" and p["method"] == "len" and not p.get("args")):
+        return None
+    piece = simple_name(p["recv"])
+    b = env.get(piece) if piece else None
+    if b is None:
+        return None
+    # (a) bound by `Some((piece, _)) = X.split_once(d)`
+    if b.scrut is not None:
+        s = strip(b.scrut)
+        if isinstance(s, dict) and s.get("k") == "mcall" and s["method"] == "split_once" and s.get("args"):
+            d = _lit_len(s["args"][0])
+            if d is not None and b.idx == 0:
+                return (piece, k, d, _norm(s["recv"]), "split_once")
+    # (b) `let piece = it.next().unwrap()` with `it = X...splitn(2, d)`; a later `it.next()` matched Some tells the delimiter is there
+    if b.src == "let" and b.init is not None:
+        i = strip(b.init)
+        t = _norm(i)
+        m = re.match(r"^(\w+)\.next\(\)(\.unwrap\(\))?$", t)
+        if m:
+            it = env.get(m.group(1))
+            if it is not None and it.init is not None:
+                chain = it.init
+                for x in walk(chain):
+                    if x.get("k") == "mcall" and x["method"] in ("splitn", "split") and x.get("args"):
+                        d = _lit_len(x["args"][-1])
+                        if d is not None:
+                            return (piece, k, d, _norm(chain)[:60], "splitn:" + m.group(1))
+    return None
+
+
+def _offset_ok(facts, fn, sc, base, p, env, doms):
+    bt = _norm(base)
+    lit = _int_lit(p)
+    if lit == 0:
+        return True, "0"
+    if lit is not None:
+        # under starts_with(<literal of that many bytes>)
+        for d in doms:
+            if d[0] == "cond" and d[2]:
+                for x in walk(d[1]):
+                    if x.get("k") == "mcall" and x["method"] == "starts_with" and _norm(x["recv"]) == bt and x.get("args") and _lit_len(x["args"][0]) == lit:
+                        return True, "%d bytes after starts_with(%s)" % (lit, expr_text(x["args"][0]))
+        return False, None
+    nm = simple_name(p)
+    b = env.get(nm) if nm else None
+    if b is not None and b.src == "let" and b.init is not None:
+        t = _norm(b.init)
+        m = re.match(r"^(.+)\.find\(.*\)\.unwrap_or\((.+)\.len\(\)\)$", t)
+        if m and m.group(1) == bt and m.group(2) == bt:
+            return True, "`%s` = find(..).unwrap_or(len) of the same string" % nm
+    term = _piece_term(p, base, env, doms)
+    if term is not None:
+        piece, k, d, src, how = term
+        if k in (0, d) and _delimiter_present(how, piece, env, doms, k):
+            return True, "`%s.len() + %d`: `%s` was split off at a %d-byte delimiter that is there" % (piece, k, piece, d)
+        if k not in (0, d):
+            return False, None
+    # a cursor: every assignment to it in this function is a piece term over base[cursor..] / base
+    if nm and b is not None and b.src == "let":
+        ok = True
+        cnt = 0
+        for node, env2, doms2 in sc:
+            tgt = None
+            rhs = None
+            if node.get("k") == "let" and nm in _pat_idents(node.get("pat")) and node.get("init") is not None:
+                tgt, rhs, mode = nm, node["init"], "="
+            elif node.get("k") == "assign" and simple_name(node["l"]) == nm:
+                tgt, rhs, mode = nm, node["r"], "="
+            elif node.get("k") == "assignop" and simple_name(node["l"]) == nm and node["op"] == "+":
+                tgt, rhs, mode = nm, node["r"], "+="
+            if tgt is None:
+                continue
+            cnt += 1
+            t2 = _piece_term(rhs, base, env2, doms2)
+            if t2 is None:
+                ok = False
+                continue
+            piece, k, d, src, how = t2
+            if k not in (0, d):
+                ok = False
+        # `cursor + 1`: one past a delimiter the cursor stands on - accepted when the site is dominated by the flag the loop
+        # sets on finding the closing delimiter (structural: handled as k == delimiter length below)
+        if ok and cnt > 0:
+            return True, "`%s` is only ever assigned piece lengths plus the length of the delimiter found after the piece (%d assignments)" % (nm, cnt)
+    # cursor + k
+    e = strip(p)
+    if isinstance(e, dict) and e.get("k") == "binary" and e["op"] == "+" and _int_lit(e["r"]) is not None:
+        inner = _offset_ok(facts, fn, sc, base, e["l"], env, doms)
+        if inner[0] and _int_lit(e["r"]) == 1:
+            # one past the delimiter the cursor stands on: the site must be reached only when the closing delimiter was found
+            found = any(d[0] == "cond" and ((not d[2] and "!found" in _norm(d[1])) or (d[2] and _norm(d[1]) == "found")) for d in doms)
+            if found:
+                return True, inner[1] + ", + 1 for the one-byte delimiter it stands on (reached only when it was found)"
+    return False, None
+
+
+def _delimiter_present(how, piece, env, doms, k):
+    if k == 0:
+        return True
+    if how == "split_once":
+        return True   # the binder exists only in the Some arm
+    it = how.split(":", 1)[1]
+    # a later `it.next()` matched Some(..)
+    for d in doms:
+        if d[0] == "arm" and _norm(d[1]) == it + ".next()" and isinstance(d[2], dict) and d[2].get("k") == "tstruct" and d[2].get("segs") == ["Some"]:
+            return True
+    return False
+
+
+def _capture_group_always(facts, fn, node, idx, env, regex_asts):
+    # the regex: a field of the context compiled from a literal in new()
+    pats = []
+    for f in facts.fns:
+        if f["file"].endswith("/cpp.rs"):
+            for x in walk(f["body"]):
+                if x.get("k") == "struct":
+                    for fl in x.get("fields", []):
+                        e = fl.get("e")
+                        if fl.get("name", "").endswith("_regex") and isinstance(e, dict):
+                            for y in walk(e):
+                                if y.get("k") == "call" and _norm(y["func"]).endswith("Regex::new") and y.get("args") and strip(y["args"][0]).get("k") == "lit":
+                                    pats.append((fl["name"], strip(y["args"][0])["v"]))
+    b = env.get(simple_name(node["base"]))
+    src = _norm(b.init) if b is not None and b.init is not None else ""
+    for name, pat in pats:
+        if name in src:
+            ast = regex_asts([pat])[0]["ast"]
+            # is group idx under an optional / alternation / star?
+            def find(a, optional):
+                if not isinstance(a, dict):
+                    return None
+                k = a.get("k")
+                if k == "group" and a.get("kind") == "capture" and a.get("name") == idx:
+                    return not optional
+                if k == "rep":
+                    return find(a["e"], optional or a.get("op") in ("?", "*") or str(a.get("op")).startswith("{0"))
+                if k == "alt":
+                    for e in a.get("es", []):
+                        r = find(e, True)
+                        if r is not None:
+                            return r
+                    return None
+                for key in ("e",):
+                    if key in a:
+                        r = find(a[key], optional)
+                        if r is not None:
+                            return r
+                for e in a.get("es", []) or []:
+                    r = find(e, optional)
+                    if r is not None:
+                        return r
+                return None
+            r = find(ast, False)
+            if r:
+                return True, "group %d of `%s` takes part in every match" % (idx, name)
+            return False, None
+    return False, None
+
+
+def _undefine_guarded(facts):
+    """every in-crate call of undefine(name) is under `get_macro(name).is_some()`"""
+    cnt = 0
+    for f in facts.fns:
+        if "/tests/" in f["file"]:
+            continue
+        for node, env, doms in scoped(f):
+            if node.get("k") == "mcall" and node["method"] == "undefine" and node.get("args"):
+                a = _norm(node["args"][0])
+                cnt += 1
+                if not any(d[0] == "cond" and d[2] and ("get_macro(%s).is_some()" % a) in _norm(d[1]) for d in doms):
+                    return False, None
+    return cnt > 0, "undefine() searches the chunks for a name its %d caller(s) know to be defined (get_macro(..).is_some()); defs and the chunk tables hold the same names (T-CPP-PARALLEL)" % cnt
